@@ -344,7 +344,7 @@ func (r *Run) Finish(c Coverage) {
 		"wall_s":      wall,
 		"violations":  len(r.violOrder),
 	}
-	if ev["assumptions"] == nil {
+	if c.Assumptions == nil {
 		ev["assumptions"] = []string{}
 	}
 	if r.ReplayPath == "" {
